@@ -3,7 +3,7 @@
 From Coq Require Import List Arith Lia Ring Field ZArith QArith Qcanon String.
 From PyOMA.Base Require Import Carrier FMat Cplx Show.
 From PyOMA.Model Require Import M_hankel M_unc.
-From PyOMA.Proofs Require Import P_unc.
+From PyOMA.Proofs Require Import P_unc P_unc_family.
 Import ListNotations.
 
 Section S.
@@ -306,6 +306,57 @@ Theorem C17_jac_xi : forall (pct dt t0:Rdefinitions.R) (a b c d : Rdefinitions.R
     (jxi_row ROps17 pct dt (sqrt (a t0 * a t0 + b t0 * b t0)) (a t0) (b t0) (c t0) (d t0) c' d'))%R.
 Proof. exact jac_xi. Qed.
 
+(* ---- REAL DERIVATIVES.  The dual-number hypotheses above are given their meaning: for matrix families that are differentiable at
+   t = 0 and satisfy the defining equations EXACTLY on a neighbourhood of 0, the pairs (value, derivative) satisfy the dual-number
+   equations (P_unc_family: sv_family_dual, ls_family_dual, eig_family_dual), hence the derivatives are what the model computes.
+   What remains outside (C17_full_statement) is only the EXISTENCE of such branches for a simple singular value / eigenvalue. ---- *)
+(* the perturbation the property talks about, H + t dH, is a differentiable family with derivative dH *)
+Theorem C17_affine_family : forall m n (H dH:fmat Rdefinitions.R), dfam Rdefinitions.R dlim m n (affine H dH) dH.
+Proof. exact dfam_affine. Qed.
+(* singular value and left singular vector: along ANY differentiable branch of normalised singular triples of H(t), the derivative
+   of sigma is u^T dH v and the derivative of u is the code's expression (SSI_fast eqs 28-34) *)
+Theorem C17_sv_real_derivatives : forall (m c:nat) (Hf uf vf:fam Rdefinitions.R) (sf:Rdefinitions.R->Rdefinitions.R)
+    (dH du dv:fmat Rdefinitions.R) (ds:Rdefinitions.R),
+  dfam Rdefinitions.R dlim m c Hf dH -> dfam Rdefinitions.R dlim m 1 uf du -> dfam Rdefinitions.R dlim c 1 vf dv -> dlim sf ds ->
+  near0 (fun t => feq m 1 (fmul ROps17 c (Hf t) (vf t)) (fscal ROps17 (sf t) (uf t))) ->
+  near0 (fun t => feq c 1 (fmul ROps17 m (ftr (Hf t)) (uf t)) (fscal ROps17 (sf t) (vf t))) ->
+  near0 (fun t => feq 1 1 (fmul ROps17 m (ftr (uf t)) (uf t)) (fid ROps17)) ->
+  near0 (fun t => feq 1 1 (fmul ROps17 c (ftr (vf t)) (vf t)) (fid ROps17)) ->
+  forall (Ki:fmat Rdefinitions.R) (isg:Rdefinitions.R),
+  (0 < c)%nat ->
+  simple_sv Rdefinitions.R ROps17 m c (Hf 0%R) (uf 0%R) (vf 0%R) (sf 0%R) ->
+  (isg * sf 0 = 1)%R ->
+  feq c c (fmul ROps17 c (Ki_arg ROps17 m c isg (Hf 0%R) (vf 0%R)) Ki) (fid ROps17) ->
+  vf 0%R (c-1)%nat 0%nat <> 0%R ->
+  feq m 1 du (du_code ROps17 m c isg (Hf 0%R) dH (uf 0%R) (vf 0%R) Ki) /\
+  ds = dsig_of ROps17 m c (fun a => uf 0%R a 0%nat) dH (fun b => vf 0%R b 0%nat).
+Proof. exact sv_real_derivatives. Qed.
+(* least-squares state matrix: the derivative of A(t) along any differentiable branch of (O_p, O_m, A) solving the normal equations
+   solves the model's linearised normal equations *)
+Theorem C17_ls_real_derivative : forall pr n (Opf Omf Af:fam Rdefinitions.R) (dOp dOm dA:fmat Rdefinitions.R),
+  dfam Rdefinitions.R dlim pr n Opf dOp -> dfam Rdefinitions.R dlim pr n Omf dOm -> dfam Rdefinitions.R dlim n n Af dA ->
+  near0 (fun t => feq n n (fmul ROps17 n (fmul ROps17 pr (ftr (Opf t)) (Opf t)) (Af t)) (fmul ROps17 pr (ftr (Opf t)) (Omf t))) ->
+  feq n n (fmul ROps17 n (fmul ROps17 pr (ftr (Opf 0%R)) (Opf 0%R)) dA)
+          (fsub ROps17 (fadd ROps17 (fmul ROps17 pr (ftr dOp) (Omf 0%R)) (fmul ROps17 pr (ftr (Opf 0%R)) dOm))
+                   (fmul ROps17 n (fadd ROps17 (fmul ROps17 pr (ftr dOp) (Opf 0%R)) (fmul ROps17 pr (ftr (Opf 0%R)) dOp)) (Af 0%R))).
+Proof. exact (ls_derivative Rdefinitions.R ROps17 RRth17 dlim dlim_const dlim_plus dlimR_mult dlim_unique_local). Qed.
+(* pole: the derivative of the (complex) eigenvalue along any differentiable branch of (observability matrices, state matrix,
+   eigen-pair) is the model's d lambda = chi^H (O_p^T O_p)^-1 W phi / (chi^H phi), W built from the observability sensitivities *)
+Theorem C17_pole_complex_derivative : forall pr n (Opf Omf Af phif:fam (Cplx.C Rdefinitions.R)) (lamf:Rdefinitions.R->Cplx.C Rdefinitions.R)
+    (dOp dOm dA dphi:fmat (Cplx.C Rdefinitions.R)) (dlam:Cplx.C Rdefinitions.R) (OO chi:fmat (Cplx.C Rdefinitions.R)),
+  dfam (Cplx.C Rdefinitions.R) dlimC pr n Opf dOp -> dfam (Cplx.C Rdefinitions.R) dlimC pr n Omf dOm -> dfam (Cplx.C Rdefinitions.R) dlimC n n Af dA ->
+  near0 (fun t => feq n n (fmul (COps ROps17) n (fmul (COps ROps17) pr (ftr (Opf t)) (Opf t)) (Af t)) (fmul (COps ROps17) pr (ftr (Opf t)) (Omf t))) ->
+  dfam (Cplx.C Rdefinitions.R) dlimC n 1 phif dphi -> dlimC lamf dlam ->
+  near0 (fun t => feq n 1 (fmul (COps ROps17) n (Af t) (phif t)) (fscal (COps ROps17) (lamf t) (phif t))) ->
+  feq n n (fmul (COps ROps17) n OO (fmul (COps ROps17) pr (ftr (Opf 0%R)) (Opf 0%R))) (fid (COps ROps17)) ->
+  feq 1 n (fmul (COps ROps17) n chi (Af 0%R)) (fscal (COps ROps17) (lamf 0%R) chi) ->
+  omul (COps ROps17) dlam (dlam_den (COps ROps17) n (fun a => chi 0%nat a) (fun a => phif 0%R a 0%nat))
+  = dlam_num (COps ROps17) n (fun a => chi 0%nat a) OO
+      (W_of (COps ROps17) (lamf 0%R) (fmul (COps ROps17) pr (ftr (Opf 0%R)) dOp) (fmul (COps ROps17) pr (ftr (Omf 0%R)) dOp)
+            (fmul (COps ROps17) pr (ftr (Opf 0%R)) dOm))
+      (fun a => phif 0%R a 0%nat).
+Proof. exact pole_complex_derivative. Qed.
+
 Print Assumptions C17_block_mean.
 Print Assumptions C17_block_mean_gen.
 Print Assumptions C17_factor_gram.
@@ -337,6 +388,10 @@ Print Assumptions C17_jfx_rows.
 Print Assumptions C17_jxi_row_is.
 Print Assumptions C17_xi_curve.
 Print Assumptions C17_jac_xi.
+Print Assumptions C17_affine_family.
+Print Assumptions C17_sv_real_derivatives.
+Print Assumptions C17_ls_real_derivative.
+Print Assumptions C17_pole_complex_derivative.
 
 (* non-vacuity 1: l = r = 1, br = 1, Ndat = 7 (N = 4, three stacked columns), nb = 2, Nb = 2: the last slice is cut to one
    column, the hypotheses of C17_block_mean hold over Qc and the mean of the two block estimates is the full estimate;
@@ -389,3 +444,24 @@ Example C17_example_xi_row :
   showQc (mapply QcOps 2 J xy 0%nat) = showQc (jf_row QcOps (q 1 6) (q 1 2) (q 5 1) (q (-3) 1) (q 4 1) (q 1 1) (q 2 1) (q 3 1) (q (-1) 1)) /\
   showQc (mapply QcOps 2 J xy 0%nat) = "-31/75"%string.
 Proof. vm_compute. repeat split; reflexivity. Qed.
+
+(* non-vacuity 5 (real derivatives): the 1 x 1 branch H(t) = 2 + 3t, u = v = 1, sigma(t) = 2 + 3t is differentiable and satisfies the
+   four defining equations for every t; C17_sv_real_derivatives then says d sigma = u dH v = 3 *)
+Example C17_example_family :
+  let Hf := affine (fun _ _ => 2%R) (fun _ _ => 3%R) in
+  let one : fam Rdefinitions.R := fun _ _ _ => 1%R in
+  let sf := fun t:Rdefinitions.R => (2 + t * 3)%R in
+  dfam Rdefinitions.R dlim 1 1 Hf (fun _ _ => 3%R) /\ dfam Rdefinitions.R dlim 1 1 one (fzero ROps17) /\ dlim sf 3%R /\
+  near0 (fun t => feq 1 1 (fmul ROps17 1 (Hf t) (one t)) (fscal ROps17 (sf t) (one t))) /\
+  near0 (fun t => feq 1 1 (fmul ROps17 1 (ftr (Hf t)) (one t)) (fscal ROps17 (sf t) (one t))) /\
+  near0 (fun t => feq 1 1 (fmul ROps17 1 (ftr (one t)) (one t)) (fid ROps17)) /\
+  dsig_of ROps17 1 1 (fun _ => 1%R) (fun _ _ => 3%R) (fun _ => 1%R) = 3%R.
+Proof.
+  cbv zeta. split; [apply dfam_affine|]. split; [apply (dfam_const Rdefinitions.R ROps17 dlim dlim_const)|].
+  split; [exact (dfam_affine 1 1 (fun _ _ => 2%R) (fun _ _ => 3%R) 0%nat 0%nat Nat.lt_0_1 Nat.lt_0_1)|].
+  assert (P1 : (0 < 1)%R) by exact Rlt_0_1.
+  repeat split; try (exists (mkposreal 1 P1); intros t _ i j Hi Hj;
+    assert (i = 0%nat) by lia; assert (j = 0%nat) by lia; subst;
+    unfold fmul, fscal, ftr, fid, affine, fadd; cbn; ring).
+  unfold dsig_of; cbn; ring.
+Qed.
